@@ -112,7 +112,12 @@ class Rewriter:
         if k == 'idx':
             return ('idx', e[1], self.expr(e[2]))
         if k == 'tern':
-            return ('tern', self.expr(e[1]), self.expr(e[2]), self.expr(e[3]))
+            c_, a_, b_ = self.expr(e[1]), self.expr(e[2]), self.expr(e[3])
+            if rng.random() < self.p:
+                # c ? a : b  ->  !c ? b : a   (the expression form of the if / else swap)
+                self.applied.append('ternary-not swap')
+                return ('tern', ('un', '!', c_), b_, a_)
+            return ('tern', c_, a_, b_)
         if k == 'call':
             return ('call', e[1], [self.expr(a) for a in e[2]])
         if k == 'asg':
@@ -368,7 +373,7 @@ def run(ctx):
         # the comma family of the fixed enumeration (tools/lib/gen_c.py, K): the comma spelled as statements
         from lib.gen_c import directed_programs
         for k_, p_ in directed_programs().items():
-            if not (k_.startswith('K_') or k_.startswith('S_')):
+            if not (k_.startswith('K_') or k_.startswith('S_') or k_.startswith('Q_')):
                 continue
             rw = Rewriter(rng, 1.0)
             q = rw.program(p_)
@@ -389,7 +394,7 @@ def run(ctx):
             for a in rw.applied:
                 kinds[a] = kinds.get(a, 0) + 1
         # the fixed enumeration is small: many more initial states (a case is taken for one value of its operand only)
-        dpairs = {k: v for k, v in pairs.items() if k.startswith('dS_') or k.startswith('dK_')}
+        dpairs = {k: v for k, v in pairs.items() if k.startswith('dS_') or k.startswith('dK_') or k.startswith('dQ_')}
         res = compare_pairs({k: v for k, v in pairs.items() if k not in dpairs}, O, 8 if quick else 24, rng)
         res.update(compare_pairs(dpairs, O, 64 if quick else 128, rng))
         for pid, (v, d) in res.items():
